@@ -15,6 +15,9 @@ def frame(seed, n=20):
                       "t": _cover(rng, ["u", "v"], n), "f": _cover(rng, ["a", "b", "c"], n)})
     d["trials"] = rng.integers(5, 12, size=n)
     d["k"] = (d["trials"] * rng.uniform(0, 1, size=n)).astype(int)
+    # the same factor stored as pandas Categorical: unordered with the categories in another order, and ordered
+    d["fc"] = pd.Categorical(d["f"], categories=["c", "a", "b"])
+    d["fo"] = pd.Categorical(d["f"], categories=["b", "c", "a"], ordered=True)
     return d
 
 
@@ -87,12 +90,19 @@ def run(report, findings):
                 except Exception as ex:
                     add(f"y ~ {fn}(n0, succ) with succ={sv}", f"raised {type(ex).__name__}: {ex}")
         # ---- offset: unchanged, constants broadcast, recomputed from the new frame
+        c0 = 2.5      # noqa: F841  (looked up by the formula through the caller's namespace)
+        tt = 40       # noqa: F841
         new = d.iloc[[3, 1, 4, 1]].reset_index(drop=True)
         new["z"] = new["z"] * 10
         for f, want_tr, want_new in (("y ~ x + offset(z)", d["z"].values, new["z"].values),
                                      ("y ~ x + offset(2.5)", np.full(len(d), 2.5), np.full(len(new), 2.5)),
                                      ("y ~ x + offset(3)", np.full(len(d), 3.0), np.full(len(new), 3.0)),
-                                     ("y ~ x + offset(np.log(z))", np.log(d["z"].values), np.log(new["z"].values))):
+                                     ("y ~ x + offset(np.log(z))", np.log(d["z"].values), np.log(new["z"].values)),
+                                     # constants that are not a bare literal: signed, computed, taken from the calling scope
+                                     ("y ~ x + offset(-3)", np.full(len(d), -3.0), np.full(len(new), -3.0)),
+                                     ("y ~ x + offset(np.log(10))", np.full(len(d), np.log(10)), np.full(len(new), np.log(10))),
+                                     ("y ~ x + offset(c0)", np.full(len(d), 2.5), np.full(len(new), 2.5)),
+                                     ("y ~ x + offset(z * 2 + 1)", d["z"].values * 2 + 1, new["z"].values * 2 + 1)):
             try:
                 dm = design_matrices(f, d)
                 got = col(dm)[:, 0]
@@ -113,15 +123,18 @@ def run(report, findings):
                 add(f, f"raised {type(ex).__name__}")
         # ---- prop: validation and trials of the new frame
         for alias in ("prop", "p", "proportion"):
-            for trials in ("trials", "12"):
+            # the trials argument by position or keyword, a column, a literal, an expression of a column, a number of the calling scope
+            for trials, tr_of in (("trials", lambda e: e["trials"].values), ("12", lambda e: np.full(len(e), 12)),
+                                  ("trials=trials", lambda e: e["trials"].values), ("trials + 1", lambda e: e["trials"].values + 1),
+                                  ("tt", lambda e: np.full(len(e), 40)), ("trials=12", lambda e: np.full(len(e), 12))):
                 f = f"{alias}(k, {trials}) ~ x"
                 try:
                     dm = design_matrices(f, d)
                     R = np.asarray(dm.response.design_matrix, dtype=float)
-                    tr = d["trials"].values if trials == "trials" else np.full(len(d), 12)
+                    tr = tr_of(d)
                     err = None if np.array_equal(R, np.column_stack([d["k"].values, tr]).astype(float)) else "response is not [successes, trials]"
                     nt = np.asarray(dm.response.evaluate_new_data(new), dtype=float).reshape(-1)
-                    want_nt = new["trials"].values if trials == "trials" else np.full(len(new), 12)
+                    want_nt = tr_of(new)
                     if err is None and not np.array_equal(nt, want_nt.astype(float)):
                         err = "prediction does not report the trials of the new frame"
                 except Exception as ex:
@@ -169,6 +182,32 @@ def run(report, findings):
                 add(f"{alias} as predictor", None)
             except Exception as ex:
                 add(f"{alias} as predictor", f"raised {type(ex).__name__}")
+        # ---- the helpers and aliases are the library's, whatever the calling scope or extra_namespace binds to their names
+        shadow = {"I": np.eye(3), "p": 0.25, "prop": None, "B": "b", "offset": lambda v: v * 0 + 99, "standardize": lambda v: v * 0,
+                  "scale": lambda v: v * 0 + 7, "T": 1, "S": 2, "binary": lambda *a: np.zeros(len(d)), "Treatment": None, "Sum": None}
+        for f, want in (("y ~ I(x + z)", (d["x"] + d["z"]).values), ("y ~ x + offset(z)", d["z"].values),
+                        ("y ~ standardize(x)", ((d["x"] - d["x"].mean()) / np.std(d["x"].values)).values),
+                        ("y ~ scale(x)", ((d["x"] - d["x"].mean()) / np.std(d["x"].values)).values),
+                        ("y ~ 0 + B(t, 'v')", (d["t"] == "v").astype(float).values), ("y ~ 0 + binary(m, 2)", (d["m"] == 2).astype(float).values)):
+            try:
+                got = col(design_matrices(f, d, extra_namespace=dict(shadow)))[:, -1]
+                add(f + " with user objects named like the helpers", None if np.allclose(got, want) else "a user object replaced the built-in helper")
+            except Exception as ex:
+                add(f + " with user objects named like the helpers", f"raised {type(ex).__name__}: {ex}")
+        for f in ("p(k, trials) ~ x", "prop(k, trials) ~ x"):
+            try:
+                R = np.asarray(design_matrices(f, d, extra_namespace=dict(shadow)).response.design_matrix, dtype=float)
+                add(f + " with user objects named like the helpers", None if np.array_equal(R, np.column_stack([d["k"].values, d["trials"].values]).astype(float))
+                    else "response is not [successes, trials]")
+            except Exception as ex:
+                add(f + " with user objects named like the helpers", f"raised {type(ex).__name__}: {ex}")
+        for fa, fb in (("y ~ T(f, 'b')", "y ~ C(f, Treatment('b'))"), ("y ~ S(f)", "y ~ C(f, Sum)")):
+            try:
+                A = col(design_matrices(fa, d, extra_namespace=dict(shadow)))
+                Bm = col(design_matrices(fb, d))
+                add(fa + " with user objects named like the helpers", None if np.array_equal(A, Bm) else "differs from " + fb)
+            except Exception as ex:
+                add(fa + " with user objects named like the helpers", f"raised {type(ex).__name__}: {ex}")
         # ---- I(e) is e; {e} too
         for e_txt, want in (("x + z", d["x"] + d["z"]), ("x * 2", d["x"] * 2), ("z", d["z"])):
             for f in (f"y ~ I({e_txt})", "y ~ {" + e_txt + "}"):
@@ -179,7 +218,9 @@ def run(report, findings):
         # ---- T / S are C with the encoding; standardize is scale
         for a, b in (("T(f, 'b')", "C(f, Treatment('b'))"), ("S(f, 'a')", "C(f, Sum('a'))"), ("standardize(x)", "scale(x)"),
                      ("B(t)", "binary(t)"), ("B(m, 2)", "binary(m, 2)"), ("T(f, 'c')", "C(f, Treatment('c'))"), ("T(f)", "C(f, Treatment)"),
-                     ("S(f)", "C(f, Sum)"), ("T(f, ref='b')", "C(f, Treatment('b'))")):
+                     ("S(f)", "C(f, Sum)"), ("T(f, ref='b')", "C(f, Treatment('b'))"),
+                     ("T(fc, 'b')", "C(fc, Treatment('b'))"), ("S(fc)", "C(fc, Sum)"), ("S(fc, 'a')", "C(fc, Sum('a'))"), ("T(fc)", "C(fc, Treatment)"),
+                     ("T(fo, 'c')", "C(fo, Treatment('c'))"), ("S(fo)", "C(fo, Sum)")):
             # a synonym is a synonym in every context: with an intercept (reduced coding), without (full coding), inside an interaction
             for ctx_ in ("y ~ {}", "y ~ 0 + {}", "y ~ 0 + x:{}"):
                 fa, fb = ctx_.format(a), ctx_.format(b)
